@@ -11,19 +11,24 @@ from ..report import Ctx
 from .common import EVALUATOR, INDIVIDUAL, PROBLEM, check_yields_all, receiver_may_be
 
 LEVEL_TEXT = (
-    "Finite-model interpretation of the source (abstract interpretation over symbolic individuals; nothing is executed) "
-    "plus who-may-call rules. (R1/R2) every Evaluator.evaluate_async is interpreted, with the evaluator's own methods and "
-    "local closures inlined, on ten batches of symbolic individuals (cached / uncached / duplicated / empty); pool maps "
-    "apply the mapped closure per element and unordered maps return results in reverse order; required: eval_single "
-    "exactly once per distinct uncached individual and never for a cached one, as many register_evaluation calls, "
-    "set_fitness(problem, <the value computed for that very individual>) once each, the whole batch yielded in order. "
-    "(R3) eval_single returns problem.evaluate(<that individual's phenotype>), called once; every Problem class is "
-    "interpreted (__init__ then evaluate) with a symbolic fitness function: components are the raw values and the default "
-    "aggregate is -f/+f (single) or the sum of (-f if minimised else f) for list and bool 'minimize'. (R4) the counter is "
-    "written only by register_evaluation, which only evaluators call on themselves; Problem.evaluate is called only from "
-    "eval_single (allow-list with reasons). (R5) in every interpreted trace of every Problem.evaluate, with and without "
-    "user aggregate callables, the fitness function is invoked exactly once. Decides these shapes for all populations, "
-    "caches and worker timings; does not run an evaluator."
+    "Finite-model interpretation of the source (abstract interpretation over symbolic individuals; nothing is "
+    "executed) plus who-may-call rules. (R1/R2) every Evaluator.evaluate_async is interpreted, with the "
+    "evaluator's own methods and local closures inlined, on ten batches of symbolic individuals (cached / "
+    "uncached / duplicated / empty); pool maps apply the mapped closure per element and unordered maps return "
+    "results in reverse order; required: eval_single exactly once per distinct uncached individual and never for "
+    "a cached one, as many register_evaluation calls, set_fitness(problem, <the value computed for that very "
+    "individual>) once each, the whole batch yielded in order. (R3) eval_single returns problem.evaluate(<that "
+    "individual's phenotype>), called once; every Problem class is interpreted (__init__ then evaluate) with a "
+    "symbolic fitness function: components are the raw values, held in a list of the library's own (not the "
+    "object the fitness function returned), and the default aggregate is -f/+f (single) or the sum of (-f if "
+    "minimised else f) for list and bool 'minimize'. (R2, shipped state) an individual pickled for a worker "
+    "carries its cached program: default pickling does; a custom __getstate__ / __setstate__ pair is interpreted,"
+    " and a program left behind is reported when C07's provenance analysis finds a mapping on this tree that is "
+    "not a pure function of the genotype. (R4) the counter is written only by register_evaluation, which only "
+    "evaluators call on themselves; Problem.evaluate is called only from eval_single (allow-list with reasons). "
+    "(R5) in every interpreted trace of every Problem.evaluate, with and without user aggregate callables, the "
+    "fitness function is invoked exactly once. Decides these shapes for all populations, caches and worker "
+    "timings; does not run an evaluator."
 )
 
 
